@@ -296,6 +296,18 @@ def evaluate(cases):
                         for hs in (hsets if m == "OPTIONS" else [HSETS[0], rng.choice(hsets[1:]), own[0]])]
                 # the token-less paths once more, each as the second request of a connection that was first used with the token
                 plan += [(path, m, HSETS[0], True) for path in ["/profile.json", "/symbolicate/v5", "/source/v1", "/asm/v1", "/", "/x"] for m in METHODS]
+                # headers by which a proxy-aware server might be told another path, prefix, method or host than the request line states: none of them
+                # may change what a path that does not begin with the token is given
+                T = "/" + srv.token
+                rew = [[("X-Forwarded-Prefix", "/proxy")], [("X-Forwarded-Prefix", "/proxy/")], [("X-Script-Name", "/proxy")], [("X-Forwarded-Path", "/proxy")],
+                       [("X-Original-URL", T + "/profile.json")], [("X-Rewrite-URL", T + "/profile.json")], [("X-Forwarded-Uri", T + "/profile.json")],
+                       [("X-HTTP-Method-Override", "GET")], [("Forwarded", "for=127.0.0.1;host=%s:%d;proto=http" % (srv.host, srv.port))],
+                       [("X-Forwarded-Host", "%s:%d" % (srv.host, srv.port)), ("X-Forwarded-Proto", "http")], [("Referer", "http://%s:%d%s/" % (srv.host, srv.port, T))],
+                       [("X-Forwarded-Prefix", "/proxy"), ("Origin", "https://profiler.firefox.com"), ("Access-Control-Request-Method", "POST")]]
+                rpaths = ["/proxy" + T + "/profile.json", "/proxy" + T + "/symbolicate/v5", "/proxy/" + T[1:], "/profile.json", "/symbolicate/v5", "/proxy/profile.json", "/"]
+                n_before = len(plan)
+                plan += [(path, m, hs, False) for path in rpaths for m in ("GET", "POST", "OPTIONS") for hs in rew]
+                dist["with_path_rewriting_headers"] = dist.get("with_path_rewriting_headers", 0) + len(plan) - n_before
                 dist["after_a_tokened_request_on_the_same_connection"] = dist.get("after_a_tokened_request_on_the_same_connection", 0) + sum(1 for x in plan if x[3])
                 for (path, m, hs, second) in plan:
                     if True:
